@@ -158,7 +158,7 @@ package condition
 //@ spec sectionHi(section string) int := abstract
 
 //@ func parserHashSectionConf
-//@   props C18
+//@   props C18,C17
 //@   nopanic
 //@   modifies nothing
 //@   ensures[accepted_sections_are_ordered_bucket_ranges] result2 == nil ==> 0 <= result0 && result0 <= result1 && result1 < HashMatcherBucketSize
@@ -166,7 +166,7 @@ package condition
 //@   loop 1 invariant[numbers_so_far_in_range] (rangeindex >= 0 ==> 0 <= start && start <= end && end < HashMatcherBucketSize) && len(numbers) >= 1 && len(numbers) <= 2
 
 //@ func setHashBuckets
-//@   props C18
+//@   props C18,C17
 //@   nopanic
 //@   requires buckets != nil && len(*buckets) == HashMatcherBucketSize
 //@   modifies (*buckets)[..]
